@@ -335,7 +335,19 @@ def generate(run_seed, deep=False):
                 rec["on_shared"] = True
                 rec["nd"] = nd_eligible(rec)
             rec["c"] = c
-            ops.append(rec)
+            if sc.random() < 0.3:
+                # a loop body "helper call; sample" executed twice, where the caller gives the helper NO seed
+                # (argument omitted or None): the helper may advance the global stream, it must not rewind it
+                api2 = sc.choice(["utils.split_data", "utils.add_edges", "utils.remove_edges", "gen.dag_full",
+                                  "gen.intervention_targets", "lganm.new"])
+                between = gen_call(g, cfg, api2, "default" if api2 in LAYOUT_FREE else None)
+                between["c"] = c
+                between["between_nd"] = True
+                ops.append(copy.deepcopy(between))
+                ops.append(rec)
+                ops.append(between)
+            else:
+                ops.append(rec)
             ops.append(copy.deepcopy(rec))
             for j in evaluated:
                 evaluated[j] = True
@@ -654,12 +666,27 @@ def oracles(w, pristine_budget):
             bucket = "0" if nb == 0 else "1" if nb == 1 else "2-4" if nb <= 4 else "5+"
             shared = bool(rec.get("m") and rec["m"].get("id"))
             w.distinct.add((rec["api"], G.seed_class(rec["seed"]), shared, mask, bucket, differ, nontrivial))
-    # 4. non-degeneracy of immediately consecutive unseeded sampling calls
-    for a, b in zip(evs, evs[1:]):
+    # 4. non-degeneracy of consecutive unseeded sampling calls: immediately consecutive, or separated only by
+    #    library calls for which the caller gave no seed (an explicitly seeded call in between may reset the
+    #    global stream by the library's documented idiom and is therefore not allowed in the gap)
+    pairs = []
+    for bi in range(1, len(evs)):
+        rb = evs[bi]["rec"]
+        if not (rb.get("nd") and rb["op"] == "call" and rb.get("seed") is None):
+            continue
+        ai = bi - 1
+        while ai >= 0 and bi - ai <= 3 and evs[ai]["rec"].get("between_nd") and evs[ai]["rec"].get("op") == "call" \
+                and evs[ai]["rec"].get("seed") in (None, "default"):
+            ai -= 1
+        if ai >= 0 and evs[ai]["rec"].get("nd"):
+            pairs.append((evs[ai], evs[bi], bi - ai - 1))
+    for a, b, gap in pairs:
         ra, rb = a["rec"], b["rec"]
         if rb.get("nd") and ra.get("nd") and rb["op"] == "call" and rb.get("seed") is None and same_call(ra, rb) \
                 and a["ok"] and b["ok"]:
             w.probes["nd:" + rb["api"]] += 1
+            if gap:
+                w.probes["nd.separated_by_an_unseeded_library_call"] += 1
             if rb.get("on_shared"):
                 w.probes["nd.on_model_with_seeded_history"] += 1
             if a["od"] == b["od"]:
@@ -717,7 +744,8 @@ REQUIRED_PROBES = ["pair.nontrivial", "pair.seed0", "pair.sep.reseed", "pair.sep
                    "model.used_through_a_pickle"] + \
                   ["api:" + a for a in APIS] + ["noise:" + n for n in G.NOISE_FACTORIES] + \
                   ["nd:" + a for a in SAMPLERS] + ["nd.on_model_with_seeded_history", "nd:gen.dag_full",
-                                                     "nd:gen.dag_avg_deg", "pair.default_seed_argument_omitted"]
+                                                     "nd:gen.dag_avg_deg", "pair.default_seed_argument_omitted",
+                                                     "nd.separated_by_an_unseeded_library_call"]
 
 
 def simplify(op):
